@@ -451,6 +451,70 @@ func (w *world) probes(final bool) {
 	try(false, w.writers == 0 && len(wrs) == 0, idr, "a read lock is available iff no writer holds or waits")
 }
 
+// runCrowd: a rare run with a few hundred write waiters queued behind one holder
+// (sizes around 2^8: counters of narrow width wrap there). After the holder
+// releases, one of them obtains the lock; the run ends there.
+func (w *world) runCrowd() {
+	c := w.c
+	n := 255 + c.S.Plan(3)
+	c.Descf("csync: rw=%v crowd of %d write waiters behind one holder", w.rw, n)
+	c.S.Count("probe:crowd-run")
+	holder := &act{id: 0}
+	w.acts = append(w.acts, holder)
+	granted := 0
+	holder.task = c.Actor("actor", func() {
+		holder.write = true
+		holder.inLock = true
+		rel, err := w.m.Lock(context.Background(), true)
+		holder.inLock = false
+		if err != nil || rel == nil {
+			c.Fail("C02.L2.error-kind", "Lock returned (%v, nil=%v) on a free lock", err, rel == nil)
+			return
+		}
+		w.enter(holder, true, "Lock")
+		holder.gate = make(chan struct{})
+		holder.atGate = true
+		simrt.Recv1("csyncx.gate", holder.gate)
+		holder.atGate = false
+		w.leave(holder)
+		rel()
+	})
+	c.S.Quiesce() // the holder has the lock
+	for i := 1; i <= n; i++ {
+		a := &act{id: i}
+		w.acts = append(w.acts, a)
+		a.task = c.Actor("actor", func() {
+			a.write = true
+			a.inLock = true
+			rel, err := w.m.Lock(context.Background(), true)
+			a.inLock = false
+			if err != nil || rel == nil {
+				return
+			}
+			w.enter(a, true, "Lock")
+			granted++
+			// keeps the lock: the run ends once somebody was granted
+		})
+	}
+	c.S.Quiesce() // everybody is queued
+	if c.Failed() {
+		return
+	}
+	w.checkQuiescent()
+	if c.Failed() || !holder.atGate {
+		return
+	}
+	close(holder.gate)
+	c.S.Quiesce()
+	if c.Failed() {
+		return
+	}
+	w.checkQuiescent() // nobody holds the lock and %d callers are blocked: not granted
+	if !c.Failed() && granted != 1 {
+		c.Fail("C02.L1.mutex-waiter-not-granted", "after the holder released, %d of %d queued writers hold the lock (expected exactly one)", granted, n)
+	}
+}
+
 func run(c *core.Ctx) {
 	w := &world{c: c, shared: map[bool]sync.Locker{}}
 	c.PanicOracle = "C01.I0.panic"
@@ -459,6 +523,10 @@ func run(c *core.Ctx) {
 		w.m = rwAPI{&csync.RWMutex{}}
 	} else {
 		w.m = mtxAPI{&csync.Mutex{}}
+	}
+	if c.S.PlanP(1) {
+		w.runCrowd()
+		return
 	}
 	w.lockerHeavy = c.S.PlanP(200)
 	nact := c.IntRange(2, 4)
